@@ -477,6 +477,11 @@ def run(model: RepoModel, rep, tier: str):
                 for x in ast.walk(e_):
                     if isinstance(x, ast.Name) and x.id in frontier_vars:
                         (use_nodes if isinstance(x.ctx, ast.Load) else def_nodes).setdefault(x.id, set()).add(n_)
+            # `v += more` reads v (the old frontier stays part of the new one): a use, not an overwrite
+            st_aug = hcfg.stmt.get(n_)
+            if isinstance(st_aug, ast.AugAssign) and isinstance(st_aug.target, ast.Name) and st_aug.target.id in frontier_vars and isinstance(st_aug.op, ast.Add):
+                use_nodes.setdefault(st_aug.target.id, set()).add(n_)
+                def_nodes.get(st_aug.target.id, set()).discard(n_)
         for v in sorted(frontier_vars):
             if v in h.params:
                 continue
@@ -630,6 +635,13 @@ def run(model: RepoModel, rep, tier: str):
     from .. import generic7
     rep.rule("C04.R12", "a switch without default can be left without entering a case: the switch statement joins the frontier its handler returns", 1)
     generic7.check_switch_no_match_exit(model, rep, "C04.R12")
+    from .. import generic8
+    rep.rule("C04.R13", "in a C-style for a continue of the body runs the update part: the body's continue statements join the frontier handed to "
+                        "the analysis of the update block", 1)
+    generic8.check_for_continue_runs_update(model, rep, "C04.R13")
+    rep.rule("C04.R14", "a continue inside a switch belongs to the enclosing loop: only the break statements of the case bodies join the frontier "
+                        "behind the switch, the rest of the special list is handed to the caller", 1)
+    generic8.check_switch_forwards_continue(model, rep, "C04.R14")
     # ------------------------------------------------------------------ R9 every clause of a control statement reaches the GIR
     from .. import generic2
     CONTROL_KEYS = ("if_stmt", "while_stmt", "dowhile_stmt", "for_stmt", "forin_stmt", "for_value_stmt", "try_stmt", "catch_clause", "switch_stmt",
@@ -707,6 +719,12 @@ C04_ADJUDICATED = {
 }
 
 MUTANTS = [
+    ("for-continue-skips-update", FILE,
+     lambda src: __import__("sa.mutate", fromlist=["x"]).text_replace(src, "            last_stmts = last_stmts + [CFGNode(stmt, CONTROL_FLOW_KIND.CONTINUE) for stmt in continue_stmts]\n", "            new_special_stmts = new_special_stmts + continue_stmts\n"),
+     "C04.R13"),
+    ("switch-frontier-takes-whole-special-list", FILE,
+     lambda src: __import__("sa.mutate", fromlist=["x"]).text_replace(src, "        last_stmts = last_stmts_of_previous_body + [stmt for stmt in special_stmts if stmt.operation == \"break_stmt\"]", "        last_stmts = last_stmts_of_previous_body + special_stmts"),
+     "C04.R14"),
     ("switch-without-no-match-exit", FILE,
      lambda src: __import__("sa.mutate", fromlist=["x"]).text_replace(src, "            last_stmts.append(current_stmt)\n        return (last_stmts, boundary)", "            pass\n        return (last_stmts, boundary)"),
      "C04.R12"),
